@@ -1,60 +1,108 @@
 #!/usr/bin/env python3
 """Assemble /verif/seeded/<PROP>-<X>/ (patch.diff, demo.py, notes.md, meta.json) from the sub-agents'
-output directories and the seedtest result files.
-usage: mkseeded.py <seeds dir> <first-wave results dir> <current results dir>"""
+output directories and the seedtest result files, and print the markdown table for DESIGN.md 12.6.
+
+usage: mkseeded.py <seeds dir> <now results dir> <wave letters>=<first results dir> ...
+   e.g. mkseeded.py /tmp/seeds /tmp/seedres_final AB=/tmp/seedres_first CD=/tmp/seedres2_before EF=/tmp/seedres3_first
+
+"first" = the property's own quick check as it was when that wave's sub-agents started; "now" = as committed.
+patch.diff is the change rebased on the current /repo tree where a later fix: commit touched the same lines
+(the sub-agent's original is kept as patch.orig.diff)."""
 import json
 import os
+import re
 import shutil
 import sys
 
 VERIF = os.path.dirname(os.path.dirname(os.path.abspath(__file__)))
-seeds, first, cur = sys.argv[1:4]
+seeds, now = sys.argv[1:3]
+first_of = {}
+for a in sys.argv[3:]:
+    letters, d = a.split("=")
+    for l in letters:
+        first_of[l] = d
+WAVE = {"A": 1, "B": 1, "C": 2, "D": 2, "E": 3, "F": 3}
+
+
+def load(d, prop, letter):
+    try:
+        return json.load(open(os.path.join(d, "%s%s.json" % (prop, letter))))
+    except Exception:
+        return None
+
+
+def one_line(notes):
+    for line in notes.splitlines():
+        l = line.strip(" #*-`")
+        if len(l) > 30 and not l.lower().startswith(("notes", "property")):
+            l = re.sub(r"^(C\d\d\s*)?[/ ]*\s*(seed\s+)?[A-F]\b\s*(\((PROV-\w+)\))?\s*[-:—]+\s*", "", l, flags=re.I)
+            l = re.sub(r"^C\d\d\s*(seed|/)\s*[A-F]\s*[-:—]+\s*", "", l, flags=re.I)
+            return re.sub(r"\s+", " ", l).replace("|", "/")[:170]
+    return ""
+
+
 rows = []
 for prop in sorted(os.listdir(seeds)):
     pdir = os.path.join(seeds, prop)
     if not os.path.isdir(pdir):
         continue
-    for letter in ("A", "B", "C", "D"):
+    for letter in "ABCDEF":
         patch = os.path.join(pdir, letter + ".patch")
         if not os.path.exists(patch):
             continue
-        def load(d):
-            try:
-                return json.load(open(os.path.join(d, "%s%s.json" % (prop, letter))))
-            except Exception:
-                return None
-        r1, r2 = load(first), load(cur)
-        r = r2 or r1
-        if not r or not r.get("valid_seed"):
-            print("skipping %s/%s (not confirmed)" % (prop, letter))
+        r1 = load(first_of.get(letter, ""), prop, letter)
+        r2 = load(now, prop, letter)
+        if not r2 or not r2.get("valid_seed"):
+            print("skipping %s/%s (not confirmed on the current tree: %s)" % (prop, letter, (r2 or {}).get("error", "")[:60]), file=sys.stderr)
             continue
         out = os.path.join(VERIF, "seeded", "%s-%s" % (prop, letter))
         os.makedirs(out, exist_ok=True)
         shutil.copy(patch, os.path.join(out, "patch.diff"))
+        if os.path.exists(patch + ".orig"):
+            shutil.copy(patch + ".orig", os.path.join(out, "patch.orig.diff"))
         shutil.copy(os.path.join(pdir, letter + "_demo.py"), os.path.join(out, "demo.py"))
-        notes = os.path.join(pdir, letter + "_notes.md")
-        needs = ""
-        if os.path.exists(notes):
-            shutil.copy(notes, os.path.join(out, "notes.md"))
-            needs = open(notes).read()
+        notes = ""
+        npath = os.path.join(pdir, letter + "_notes.md")
+        if os.path.exists(npath):
+            shutil.copy(npath, os.path.join(out, "notes.md"))
+            notes = open(npath).read()
+        first_caught = None if r1 is None or "checks" not in r1 else bool(r1.get("caught_by_own_check"))
         meta = {
             "seed": "%s-%s" % (prop, letter),
+            "wave": WAVE[letter],
             "breaks_property": prop,
-            "origin": "independent sub-agent that saw only the text of %s and a scratch worktree of /repo" % prop,
+            "origin": "independent sub-agent that saw only the text of %s, the one-line descriptions of the earlier "
+                      "seeds for it and a scratch worktree of /repo" % prop,
+            "what": one_line(notes),
             "needs_to_manifest": "see notes.md",
+            "rebased_on_current_tree": os.path.exists(patch + ".orig"),
             "confirmed_in_scratch_worktree": {
-                "baseline_with_change": r.get("baseline_with_change"),
-                "demo_exit_without_change": r.get("demo_without_change_exit"),
-                "demo_exit_with_change": r.get("demo_with_change_exit"),
-                "command": "tools/seedtest.py <dir> %s %s ALL  (applies patch.diff in a scratch worktree, runs tools/baseline.py, "
-                           "the demo with and without the change, then ./check <id> quick with PROVMC_REPO=<scratch>)" % (letter, prop),
+                "tree": "scratch worktree of /repo at its HEAD when evaluated",
+                "baseline_with_change": r2.get("baseline_with_change"),
+                "demo_exit_without_change": r2.get("demo_without_change_exit"),
+                "demo_exit_with_change": r2.get("demo_with_change_exit"),
+                "command": "tools/seedtest.py <dir> %s %s  (applies patch.diff in a scratch worktree, runs tools/baseline.py, "
+                           "the demo with and without the change, then ./check %s quick with PROVMC_REPO=<scratch>)" % (letter, prop, prop),
             },
-            "first_wave": None if r1 is None else {"caught_by_own_check": r1.get("caught_by_own_check")},
-            "now": None if r2 is None else {"caught_by_own_check": r2.get("caught_by_own_check"), "caught_by": r2.get("caught_by"),
-                                            "own_check_first_lines": r2["checks"][prop]["first"][:2]},
+            "own_check_when_the_wave_started": first_caught,
+            "own_check_now": {"caught": r2.get("caught_by_own_check"),
+                              "first_lines": [re.sub(r"replay=\S+", "replay=<scratch>", x) for x in r2["checks"][prop]["first"][:2]]},
         }
         with open(os.path.join(out, "meta.json"), "w") as f:
-            json.dump(meta, f, indent=1)
-        rows.append((meta["seed"], r1 and r1.get("caught_by_own_check"), r2 and r2.get("caught_by_own_check"), (r2 or {}).get("caught_by")))
-for row in rows:
-    print(row)
+            json.dump(meta, f, indent=1, ensure_ascii=False)
+        rows.append(meta)
+
+print("| seed | wave | what the change does (first line of the sub-agent's notes) | own check when the wave started | own check now | clause that fires now |")
+print("|---|---|---|---|---|---|")
+for m in rows:
+    f1 = {None: "not measured", True: "caught", False: "missed"}[m["own_check_when_the_wave_started"]]
+    f2 = "caught" if m["own_check_now"]["caught"] else "**missed**"
+    cl = ""
+    for x in m["own_check_now"]["first_lines"]:
+        mm = re.search(r"clause=(\S+)", x)
+        if mm:
+            cl = mm.group(1)
+    print("| %s | %d | %s | %s | %s | %s |" % (m["seed"], m["wave"], m["what"], f1, f2, cl))
+n = len(rows)
+print("\n%d seeds; caught when their wave started: %d; caught now: %d" % (
+    n, sum(1 for m in rows if m["own_check_when_the_wave_started"]), sum(1 for m in rows if m["own_check_now"]["caught"])), file=sys.stderr)
